@@ -73,7 +73,8 @@ type Replay struct {
 	Seed      uint64     `json:"seed"`
 	Minimised bool       `json:"minimised"`
 	Spec      *RunSpec   `json:"spec,omitempty"`
-	Store     *StoreSpec `json:"store,omitempty"`
+	StoreW    *StoreSpec `json:"store,omitempty"`
+	Kill      *KillSpec  `json:"kill,omitempty"`
 	Trace     []string   `json:"trace,omitempty"` // human-readable tail of the failing run
 }
 
@@ -647,7 +648,7 @@ func ReplayMain(t *testing.T) {
 	if err := json.Unmarshal(b, &rep); err != nil {
 		t.Fatalf("replay: %v", err)
 	}
-	if rep.Store != nil {
+	if rep.StoreW != nil || rep.Kill != nil {
 		storeReplay(t, &rep)
 		return
 	}
